@@ -2,7 +2,7 @@
    kind 0301: FS model vs the Linux kernel (random syscall sequences in a chroot jail).
    kind 0302: real fsutil.Receive fed by a hostile sender vs recv_fs (see below). *)
 From Coq Require Import List NArith Bool.
-From FS Require Import Sx Model.Path Model.Stat Model.Validator Model.Fs Model.DiskWriterFs Model.RecvFilter Model.RecvMeta Model.RecvSpec.
+From FS Require Import Sx Model.Path Model.Stat Model.Validator Model.Fs Model.DiskWriterFs Model.RecvMeta Model.RecvSpec.
 Import ListNotations.
 Open Scope N_scope.
 Open Scope bool_scope.
@@ -257,7 +257,7 @@ Definition run_0302_opt (ops : list sx) (dest : bytes) (pks : list sx) (mg : N) 
       match resolve_ino ctx_init f0 dest true, resolve_ino ctx_init f0 dest false with
       | inl d0, inl dlno =>
         let dl := match get f0 dlno with Some {| i_kind := KLink _ |} => true | _ => false end in
-        let st := recv_fs_opt f0 1 d0 dl (negb (N.eqb mg 0)) mo flt [] packets in
+        let st := recv_fs_opt f0 1 d0 dl (negb (N.eqb mg 0)) mo (match flt with Some fl => fl | None => no_filter end) [] packets in
         (* A receive loop that dies in the closed-channel panic runs its deferred errgroup Done
            on the way down: Receive's g.Wait() returns nil and the epilogue of a metadata transfer
            races with the death of the process — dest/.fsutil-metadata is found untouched,
